@@ -8,6 +8,7 @@ import (
 	"iter"
 	"slices"
 	"sort"
+	"strings"
 	"testing"
 
 	"pgregory.net/rapid"
@@ -838,6 +839,21 @@ func execMerge(p mergeProg, c *hx.Case) error {
 	if err := check("mergesort.Merge", gen); err != nil {
 		return err
 	}
+	// the generic function over value types whose zero value is a legal element:
+	// the keys as strings (the empty key is ""), and integers around zero
+	if err := mergeValues("mergesort.Merge[string]", p, func(i int) string { return string(pool[i]) }, strings.Compare); err != nil {
+		return err
+	}
+	if err := mergeValues("mergesort.Merge[int]", p, func(i int) int { return i - 3 }, func(a, b int) int { return a - b }); err != nil {
+		return err
+	}
+	type rec struct {
+		K string
+		N uint8
+	}
+	if err := mergeValues("mergesort.Merge[struct]", p, func(i int) rec { return rec{K: string(pool[i])} }, func(a, b rec) int { return strings.Compare(a.K, b.K) }); err != nil {
+		return err
+	}
 	// iteru.MergeSorted keeps duplicates: output is the sorted multiset union
 	var got []*mItem
 	n := 0
@@ -876,8 +892,49 @@ func execMerge(p mergeProg, c *hx.Case) error {
 	return nil
 }
 
+// mergeValues runs mergesort.Merge over the runs of p with elements of a plain
+// value type; elem must be strictly increasing in the pool index. The output
+// must be the sorted set of all elements, each once.
+func mergeValues[T comparable](name string, p mergeProg, elem func(int) T, cmp func(a, b T) int) error {
+	present := map[int]bool{}
+	iters := make([]iter.Seq[T], len(p.Runs))
+	for ri, run := range p.Runs {
+		idx := slices.Clone(run)
+		slices.Sort(idx)
+		vals := make([]T, len(idx))
+		for j, i := range idx {
+			vals[j] = elem(i)
+			present[i] = true
+		}
+		iters[ri] = slices.Values(vals)
+	}
+	var want []T
+	for i := 0; i < 14; i++ {
+		if present[i] {
+			want = append(want, elem(i))
+		}
+	}
+	n := 0
+	for v := range mergesort.Merge(iters, cmp, func(a, b T) T { return b }) {
+		if n >= len(want) {
+			return hx.Errf("%s yielded more than %d items (%v)", name, len(want), v)
+		}
+		if v != want[n] {
+			return hx.Errf("%s item %d is %#v, the sorted union has %#v there (runs %v)", name, n, v, want[n], p.Runs)
+		}
+		n++
+		if p.Take >= 0 && n >= p.Take {
+			return nil
+		}
+	}
+	if n != len(want) {
+		return hx.Errf("%s yielded %d items, the sorted union has %d (runs %v)", name, n, len(want), p.Runs)
+	}
+	return nil
+}
+
 func TestPropMerge(t *testing.T) {
-	hx.Run(t, hx.Spec{Prop: "C19", Rule: "0..5 key-ascending runs over 14 adversarial keys with interleaved sequence numbers, consumers that stop early; kv.MergeEntries / mergesort.Merge vs newest-per-key of the sorted union, iteru.MergeSorted vs the sorted multiset; non-trivial = >=2 runs sharing >=1 key"}, genMerge, execMerge)
+	hx.Run(t, hx.Spec{Prop: "C19", Rule: "0..5 key-ascending runs over 14 adversarial keys with interleaved sequence numbers, consumers that stop early; kv.MergeEntries / mergesort.Merge vs newest-per-key of the sorted union, mergesort.Merge over strings, integers around zero and structs (types whose zero value is an element) vs the sorted set, iteru.MergeSorted vs the sorted multiset; non-trivial = >=2 runs sharing >=1 key"}, genMerge, execMerge)
 }
 
 // ---------------------------------------------------------------- unique binary search
